@@ -20,6 +20,21 @@ R4z  `for (A, B) in X.iter().zip(Y.iter()) { S }`   (A, B identifiers; X, Y iden
      ->  `for vx_z in 0..vx_min(X.len(), Y.len()) { let A = &X[vx_z]; let B = &Y[vx_z]; S }`
      Definitional for slices and `Vec`: `zip` yields `(&X[i], &Y[i])` for i = 0, 1, … and stops when the shorter side is
      exhausted; both are borrowed immutably for the whole loop.  The unit provides a verified `fn vx_min(usize, usize)`.
+
+R4d  `PATH.iter().map(|X| BODY).collect()`   (X an identifier, PATH an identifier / field path)
+     ->  `{ let mut vx_c = Vec::new(); for vx_j in 0..PATH.len() { let X = &PATH[vx_j]; vx_c.push(BODY); } vx_c }`
+     Definitional for slices and `Vec` (DESIGN 2.2, R4 (d)): `iter()` yields `&PATH[0], &PATH[1], ...` in order, `map` applies the closure
+     to each in that order (side effects of BODY on captured variables included), `collect::<Vec<_>>()` pushes the results in order.
+     BODY is kept verbatim (expression or block).  If the target is not a `Vec` the rewritten text does not type-check.
+
+R4e  `PATH.iter().map(|X| BODY).collect::<Result<Vec<T>>>()?`   (fallible variant of R4d; BODY evaluates to a `Result`)
+     ->  `{ let mut vx_c = Vec::new(); for vx_j in 0..PATH.len() { let X = &PATH[vx_j];
+            vx_c.push(match BODY { Ok(vx_v) => vx_v, Err(vx_e) => return Err(vx_e) }); } vx_c }`
+     `collect::<Result<Vec<_>, E>>()` evaluates the closure on the elements in order, stops at the first `Err(e)` and yields it, and the
+     trailing `?` returns it from the enclosing function; otherwise it yields the vector of the `Ok` values in order.  A `?` inside BODY
+     returns `Err` from the closure, which is that same first-`Err` path; inlined, it returns from the enclosing function directly.
+     Side condition (checked syntactically): the turbofish is the one-parameter alias `Result<Vec<T>>`, i.e. the closure's error type is
+     the crate's error type, the same as the enclosing function's (`-> Result<..>` with the same alias), so no `From` conversion differs.
 """
 from ..lexer import lex, sig
 from ..extract import match_close
@@ -135,4 +150,85 @@ def r4z_zip_for(text, log):
             return text
 
 
-RULES = {"R4z": r4z_zip_for, "R4u": r4u_named_unused, "R15": r15_anyhow, "R4s": r4s_slice_for}
+def r4d_map_collect(text, log):
+    while True:
+        st = sig(lex(text))
+        done = True
+        for i, t in enumerate(st):
+            # PATH . iter ( ) . map ( | X | BODY ) . collect ( )
+            if not (t.text == "." and i + 8 < len(st) and [x.text for x in st[i + 1:i + 7]] == ["iter", "(", ")", ".", "map", "("]):
+                continue
+            o = i + 6
+            if st[o + 1].text != "|" or st[o + 2].kind != "ident" or st[o + 3].text != "|":
+                continue
+            c = match_close(st, o)
+            if [x.text for x in st[c + 1:c + 5]] != [".", "collect", "(", ")"]:
+                continue
+            # walk back over PATH
+            j = i - 1
+            if st[j].kind != "ident":
+                continue
+            while j - 2 >= 0 and st[j - 1].text == "." and st[j - 2].kind == "ident":
+                j -= 2
+            path = span_text(text, st, j, i)
+            x = st[o + 2].text
+            body = text[st[o + 4].start:st[c].start]
+            new = "{ let mut vx_c = Vec::new(); for vx_j in 0..%s.len() { let %s = &%s[vx_j]; vx_c.push(%s); } vx_c }" % (path, x, path, body.strip())
+            text = text[:st[j].start] + new + text[st[c + 4].end:]
+            log["R4d map-collect -> push loop"] = log.get("R4d map-collect -> push loop", 0) + 1
+            done = False
+            break
+        if done:
+            return text
+
+
+def r4e_try_map_collect(text, log):
+    while True:
+        st = sig(lex(text))
+        done = True
+        for i, t in enumerate(st):
+            if not (t.text == "." and i + 8 < len(st) and [x.text for x in st[i + 1:i + 7]] == ["iter", "(", ")", ".", "map", "("]):
+                continue
+            o = i + 6
+            if st[o + 1].text != "|" or st[o + 2].kind != "ident" or st[o + 3].text != "|":
+                continue
+            c = match_close(st, o)
+            # . collect :: < Result < Vec < T > > > ( ) ?
+            tail = [x.text for x in st[c + 1:c + 8]]
+            if tail[:7] != [".", "collect", ":", ":", "<", "Result", "<"] or st[c + 8].text != "Vec":
+                continue
+            k = c + 9
+            depth = 0
+            # skip the generic argument list of Vec<...> and the two closing '>' of Result< >, then `( ) ?`
+            if st[k].text != "<":
+                continue
+            depth = 1
+            k += 1
+            while depth > 0:
+                if st[k].text == "<":
+                    depth += 1
+                elif st[k].text == ">":
+                    depth -= 1
+                k += 1
+            if [x.text for x in st[k:k + 5]] != [">", ">", "(", ")", "?"]:
+                continue
+            end = k + 4
+            j = i - 1
+            if st[j].kind != "ident":
+                continue
+            while j - 2 >= 0 and st[j - 1].text == "." and st[j - 2].kind == "ident":
+                j -= 2
+            path = span_text(text, st, j, i)
+            x = st[o + 2].text
+            body = text[st[o + 4].start:st[c].start].strip()
+            new = ("{ let mut vx_c = Vec::new(); for vx_j in 0..%s.len() { let %s = &%s[vx_j]; "
+                   "vx_c.push(match %s { Ok(vx_v) => vx_v, Err(vx_e) => return Err(vx_e) }); } vx_c }") % (path, x, path, body)
+            text = text[:st[j].start] + new + text[st[end].end:]
+            log["R4e try-map-collect -> push loop"] = log.get("R4e try-map-collect -> push loop", 0) + 1
+            done = False
+            break
+        if done:
+            return text
+
+
+RULES = {"R4e": r4e_try_map_collect, "R4d": r4d_map_collect, "R4z": r4z_zip_for, "R4u": r4u_named_unused, "R15": r15_anyhow, "R4s": r4s_slice_for}
